@@ -111,7 +111,10 @@ def run(ctx):
     f = P.fns.get(fk)
     if f is not None:
         ev = evaluate(f)
-        oks = R.ok_exits(P, f, ev)
+        # the rule speaks about a non-empty list (there is no shares[0] otherwise): alternatives of a disjunctive guard
+        # that say "the list is empty" are not the ones that have to carry the scheme test
+        with G.given(lambda atom, pol: R._literal_len_bound(atom, not pol, "shares") >= 1):
+            oks = R.ok_exits(P, f, ev)
         good = True
         detail = ""
         idiom = None
@@ -125,13 +128,10 @@ def run(ctx):
                 if not ((qn == "Iterator::all" and pol) or (qn == "Iterator::any" and not pol)):
                     continue
                 src = atom[2].a[1][0]
-                clo = B.peel(atom[2].a[1][1])
-                if not (clo.op == "agg" and clo.a[0][0] == "closure"):
+                body = G.apply_closure(P, atom[2].a[1][1], [])
+                if body is None:
                     continue
-                g = P.fns.get(clo.a[0][1])
-                if g is None:
-                    continue
-                fm = G.formula(evaluate(g).ret, P)
+                fm = G.formula(body, P)
                 if qn == "Iterator::any":
                     fm = G.f_not(fm)
                 if not (fm[0] == "atom" and fm[1] == "term" and fm[2].op == "call" and B.cname(fm[2]).endswith("::same_scheme")):
@@ -153,6 +153,7 @@ def run(ctx):
                         hit = True
                         detail = "%s(%s, |s| %s)" % (qn.split("::")[-1], cov, show(r, 4))
             good = good and hit
+        SP.check_same_scheme_semantics(ctx, "E2.same-scheme", P)
         ctx.ob("E4.scheme", fk, bool(oks) and good, "every success exit requires that each share has the scheme of shares[0]: %s" % detail, where=where(f))
         errs = R.err_blocks(f)
         kinds = []
